@@ -366,6 +366,9 @@ def build_eh_frame_hdr(fdes, offsets, eh_frame_svma, hdr_svma=None, enc="abs8", 
     extra: further table entries (start svma, offset into .eh_frame) - a table that points at things which are not FDEs"""
     ents = sorted([(f["start"], eh_frame_svma + offsets[i]) for i, f in enumerate(fdes)] +
                   [(a, eh_frame_svma + o) for a, o in extra], key=lambda e: e[0])
+    if enc == "notable":
+        # version 1, eh_frame_ptr udata8, fde_count_enc = table_enc = DW_EH_PE_omit: a header without search table
+        return bytes([1, 0x04, 0xff, 0xff]) + struct.pack("<Q", eh_frame_svma)
     if enc == "abs8":
         out = bytes([1, 0x04, 0x03, 0x04])                 # version, eh_frame_ptr udata8, count udata4, table udata8
         out += struct.pack("<Q", eh_frame_svma)
@@ -527,7 +530,7 @@ def uop_tokens(op):
         return ["savexmm", str(op[1])]
     return ["mach", "1" if op[1] else "0"]
 
-def build_pe(funcs, uinfos, text_lo, text_bytes, xdata_rva=0x80000, rdata_ids=(), text_hi=None):
+def build_pe(funcs, uinfos, text_lo, text_bytes, xdata_rva=0x80000, rdata_ids=(), text_hi=None, no_xdata=False):
     """funcs = [(begin, end, uinfo_id)] sorted by begin; uinfos = {id: uinfo dict}; chain refers to ids.
     Unwind infos whose id is in rdata_ids are placed in .rdata, which ends exactly where .xdata begins.
     Returns (sections list for the B view, abstract tokens for the A view)."""
@@ -557,7 +560,9 @@ def build_pe(funcs, uinfos, text_lo, text_bytes, xdata_rva=0x80000, rdata_ids=()
     secs = [(".pdata", pdata, None)]
     if rd:
         secs.append((".rdata", rdata, (rdata_rva, rdata_rva + len(rdata))))
-    if xd or not rd:
+    if (xd or not rd) and not (no_xdata and not xdata):
+        # no_xdata: an image that has a function table but neither .xdata nor .rdata (nothing to describe: the table is
+        # empty, or its owner did not hand the other sections over)
         secs.append((".xdata", xdata, (xdata_rva, xdata_rva + len(xdata))))
     if text_hi is None and text_bytes is not None:
         text_hi = text_lo + len(text_bytes)
@@ -580,8 +585,8 @@ def build_pe(funcs, uinfos, text_lo, text_bytes, xdata_rva=0x80000, rdata_ids=()
         a += ["notext"]
     return secs, a, rva
 
-def module_pe(script, mid, start, end, base_avma, base_svma, funcs, uinfos, text_lo, text_bytes, xdata_rva=0x80000, rdata_ids=(), text_hi=None):
-    secs, a, rva = build_pe(funcs, uinfos, text_lo, text_bytes, xdata_rva, rdata_ids, text_hi)
+def module_pe(script, mid, start, end, base_avma, base_svma, funcs, uinfos, text_lo, text_bytes, xdata_rva=0x80000, rdata_ids=(), text_hi=None, no_xdata=False):
+    secs, a, rva = build_pe(funcs, uinfos, text_lo, text_bytes, xdata_rva, rdata_ids, text_hi, no_xdata)
     b = [str(len(secs))]
     for name, data, rngs in secs:
         # "." = the section is present and empty (an image without a single table entry), "-" = no such section
